@@ -34,7 +34,8 @@ def nontrivial(evs):
 
 P = {
     "specdir": "routemgr",
-    "design": [],
+    "design": [{"module": "MC_I_RouteMgr", "cfg": "MC_I_RouteMgr_quick.cfg", "thorough_cfg": "MC_I_RouteMgr.cfg",
+                "workers": 4, "timeout": 300, "thorough_timeout": 1700, "allow_zero": ("INext",)}],
     "gens": [
         {"module": "Gen_RouteMgr", "cfg": "Gen_cover.cfg", "workers": 2, "max": 1200, "thorough_max": 20000,
          "timeout": 300, "thorough_timeout": 900},
@@ -47,11 +48,88 @@ P = {
     "chunk": 100000,
     "signature": signature,
     "nontrivial": nontrivial,
-    "rule": "TODO",
-    "assumptions": [],
+    "rule": "manager level: behaviours = one per transition of the abstract (routes, VTEPs, host metadata, parent-known) graph "
+            "over a VXLAN/no-encap block of a same-subnet node, a local block and a local workload//32 (TLC, VIEW + "
+            "ACTION_CONSTRAINT; thinned by seed in quick tier), TLC random walks of 30 messages over all three pool kinds, "
+            "borrowed addresses and tunnel addresses, and seeded random histories over 3 remote nodes (2 in the local "
+            "subnet), 4 blocks whose pools change kind and cross-subnet mode, node addresses and VTEPs changing, local "
+            "information arriving late or being withdrawn; all three managers share one recording route table; a trace is "
+            "non-trivial when an observation follows both a SameSubnet and a non-SameSubnet remote route of an encapsulated "
+            "pool, or a local block together with a local workload route",
+    "assumptions": ["SameSubnet is only set on routes that carry the owner's node address (the resolver derives it from that address)",
+                    "the local parent address, when announced, is an address of a local interface (eth0 in the mock netlink)",
+                    "ProgramIPIPClusterRoutes is on (otherwise the IPIP manager leaves cluster routes to BIRD)",
+                    "IPv4 managers; the IPv6 VXLAN / no-encap instances run the same routeManager code on the other family's fields"],
     "exhaustive": False,
 }
 
 
 def run_manager_level(ctx):
     mgr_common.run_legs(ctx, P)
+
+
+def selftest_manager_level(ctx):
+    from vlib import pipeline
+
+    def first_flush(evs, pred):
+        for e in evs:
+            if e["ev"] == "flush":
+                for tb in e["tables"]:
+                    if pred(tb):
+                        return e, tb
+        return None, None
+
+    def direct_becomes_tunnel(evs):
+        # move a same-subnet (direct) VXLAN route into the tunnel class
+        e, tb = first_flush(evs, lambda tb: tb["class"] == "RouteClassVXLANSameSubnet")
+        if e is not None:
+            tb["class"], tb["iface"] = "RouteClassVXLANTunnel", "vxlan.calico"
+            e["tables"] = [x for x in e["tables"] if x is tb or x["class"] != "RouteClassVXLANTunnel"] if False else e["tables"]
+            # merge with an existing tunnel entry, if any, to keep one entry per (class, iface)
+            others = [x for x in e["tables"] if x is not tb and x["class"] == "RouteClassVXLANTunnel"]
+            for o in others:
+                tb["targets"] = tb["targets"] + o["targets"]
+                e["tables"].remove(o)
+            return evs
+
+    def stale_gateway(evs):
+        e, tb = first_flush(evs, lambda tb: tb["class"] in ("RouteClassVXLANTunnel", "RouteClassIPIPTunnel")
+                            and any(t["gw"] for t in tb["targets"]))
+        if e is not None:
+            for t in tb["targets"]:
+                if t["gw"]:
+                    t["gw"] = "10.250.250.250"
+                    return evs
+
+    def blackhole_on_workload(evs):
+        # pretend the manager was told that a blackholed local block is a workload's own route
+        for i, e in enumerate(evs):
+            if e["ev"] == "route_update" and e["r"]["lw"] and not e["r"]["local_wl"] and e["r"]["cidr"]["n"] < 32:
+                t = e["t"]
+                if any(x["ev"] == "flush" and x["t"] == t and any(tb["class"].startswith("RouteClassBlackhole") for tb in x["tables"])
+                       for x in evs[i:]):
+                    e["r"]["local_wl"] = True
+                    return evs
+
+    def drop_remove(evs):
+        for i, e in enumerate(evs):
+            if e["ev"] == "route_remove":
+                t, d = e["t"], e["dst"]
+                told = [x for x in evs[:i] if x["t"] == t and x["ev"] == "route_update" and x["dst"] == d
+                        and x["r"]["pool"] in ("vxlan", "none") and (x["r"]["lw"] and not x["r"]["local_wl"] and x["r"]["cidr"]["n"] < 32)]
+                later = [x for x in evs[i:] if x["t"] == t and x["ev"] in ("route_update", "route_remove") and x["dst"] == d]
+                if told and len(later) == 1 and any(x["ev"] == "flush" and x["t"] == t for x in evs[i:]):
+                    return evs[:i] + evs[i + 1:]
+
+    def lose_route(evs):
+        e, tb = first_flush(evs, lambda tb: tb["class"] == "RouteClassNoEncap")
+        if e is not None:
+            tb["targets"] = tb["targets"][1:]
+            if not tb["targets"]:
+                e["tables"].remove(tb)
+            return evs
+
+    return pipeline.corruption_selftest(ctx, dict(P, driver=dict(P["driver"])), [
+        ("direct_becomes_tunnel", direct_becomes_tunnel), ("stale_gateway", stale_gateway),
+        ("blackhole_on_workload", blackhole_on_workload), ("drop_remove", drop_remove), ("lose_route", lose_route)],
+        n_random=60)
